@@ -1,5 +1,6 @@
 import MitumModel.Common
 import MitumModel.Model.LastPoint
+import MitumModel.Model.LastVoteproofs
 namespace Mitum.Driver
 open Mitum Mitum.LastPoint
 
@@ -9,6 +10,47 @@ def parseLP (s : String) : Option (Option LP) :=
   else match (s.splitOn ",").mapM String.toNat? with
     | some [h, r, a, m, sc] => some (some { pt := { h := h, r := r, acc := a == 1 }, maj := m == 1, sc := sc == 1 })
     | _ => none
+
+namespace LvhDrv
+open Mitum.LastVPs
+
+/-- the handler with its cache of earlier pairs (keyed by stage point; never more than 8 entries here) -/
+structure St where
+  h : H
+  cache : List (Pt × H)
+
+def lookup (cache : List (Pt × H)) (pt : Pt) : H :=
+  match cache.find? (fun e => e.1 == pt) with
+  | some e => e.2
+  | none => { ivp := none, avp := none }
+
+def put (cache : List (Pt × H)) (pt : Pt) (v : H) : List (Pt × H) := (pt, v) :: cache.filter (fun e => !(e.1 == pt))
+
+/-- `Set(vp)`: returns the new state and what `IsNew` said just before -/
+def step (st : St) (vp : LP) : St × Bool :=
+  if isNew st.h vp then
+    let cache := if (cap st.h).isSome then put st.cache vp.pt st.h else st.cache
+    ({ h := (setVP false false st.h vp).1, cache := cache }, true)
+  else
+    match cap st.h with
+    | none => (st, false)
+    | some l =>
+      let cached := lookup st.cache l.pt
+      let ci := cached.ivp.isSome
+      let ca := cached.avp.isSome
+      let fi := !ci && l.pt.acc && !vp.pt.acc && decide (l.pt.h = vp.pt.h ∧ l.pt.r = vp.pt.r)
+      let fa := !ca && !l.pt.acc && vp.pt.acc && decide (l.pt.h = vp.pt.h + 1)
+      let cache := if fi || fa then
+          put st.cache l.pt { ivp := if fi then some vp else cached.ivp, avp := if fa then some vp else cached.avp }
+        else st.cache
+      ({ h := fill ci ca st.h vp, cache := cache }, false)
+
+def lpStr (l : Option LP) : String :=
+  match l with
+  | none => "z"
+  | some l => s!"{l.pt.h},{l.pt.r},{if l.pt.acc then 1 else 0},{if l.maj then 1 else 0},{if l.sc then 1 else 0}"
+
+end LvhDrv
 
 def stepC06 (ts : List String) : String :=
   match ts with
@@ -28,6 +70,16 @@ def stepC06 (ts : List String) : String :=
         | none => acc
         | some n => let r := setLastPoint acc.1 n; (r.1, acc.2 ++ boolStr r.2)
       (ns.foldl step (none, "")).2
+    | none => "bad-op"
+  | "lvh" :: ns =>
+    -- `lvh <position>…`: what `IsNew` answers before each `Set`, and the reference (`Cap`) at the end
+    match ns.mapM parseLP with
+    | some ns =>
+      let r := ns.foldl (fun (acc : LvhDrv.St × String) (n : Option LP) =>
+        match n with
+        | none => acc
+        | some n => let x := LvhDrv.step acc.1 n; (x.1, acc.2 ++ boolStr x.2)) ({ h := { ivp := none, avp := none }, cache := [] }, "")
+      s!"{r.2} cap={LvhDrv.lpStr (LastVPs.cap r.1.h)}"
     | none => "bad-op"
   | _ => "bad-op"
 
